@@ -402,6 +402,7 @@ class World:
         self.files = {}
         self.docs = {}
         self.named_lists = {}
+        self.encodings = {}      # file -> text encoding, for the harness's own text-mode/str adapters
         self.log = []
         self.violations = []
         self.faults = {}
@@ -507,36 +508,44 @@ class World:
                 p, a, s = svg2paths2(name)
                 return ("ok", (p, a, s))
             if reader == "svg2paths_textstream":
-                with open(name, "r", encoding="utf-8") as f:
+                with open(name, "r", encoding=self.enc_of(name)) as f:
                     p, a, s = svg2paths(f, return_svg_attributes=True)
                 return ("ok", (p, a, s))
             if reader == "svg2paths_stream":
                 data = fs.content(fs.resolve(str(name)))
                 if data is None:
                     raise FileNotFoundError(name)
-                st = io.BufferedReader(ShortReadStream(data, self.config.get("short_step", 7)), 16)
+                # the raw object itself: read(n) hands out at most `short_step` bytes per call, as any
+                # stream may (a BufferedReader around it would hide that from a single big read())
+                st = ShortReadStream(data, self.config.get("short_step", 7))
                 p, a, s = svg2paths(st, return_svg_attributes=True)
                 return ("ok", (p, a, s))
             if reader == "svgstr2paths":
                 data = fs.content(fs.resolve(str(name)))
                 if data is None:
                     raise FileNotFoundError(name)
-                p, a, s = svgstr2paths(data.decode("utf-8"), return_svg_attributes=True)
+                p, a, s = svgstr2paths(data.decode(self.enc_of(name)), return_svg_attributes=True)
                 return ("ok", (p, a, s))
             if reader in ("document", "document_stream", "document_string", "document_textstream"):
                 if reader == "document":
                     doc = Document(name)
                 elif reader == "document_stream":
-                    with open(name, "rb") as f:
-                        doc = Document(f)
+                    if self.config.get("short_step", 7) < 50:
+                        data = fs.content(fs.resolve(str(name)))
+                        if data is None:
+                            raise FileNotFoundError(name)
+                        doc = Document(ShortReadStream(data, self.config.get("short_step", 7)))
+                    else:
+                        with open(name, "rb") as f:
+                            doc = Document(f)
                 elif reader == "document_textstream":
-                    with open(name, "r", encoding="utf-8") as f:
+                    with open(name, "r", encoding=self.enc_of(name)) as f:
                         doc = Document(f)
                 else:
                     data = fs.content(fs.resolve(str(name)))
                     if data is None:
                         raise FileNotFoundError(name)
-                    doc = Document.from_svg_string(data.decode("utf-8"))
+                    doc = Document.from_svg_string(data.decode(self.enc_of(name)))
                 ps = doc.paths()
                 return ("ok", (ps, [dict(q.element.attrib) for q in ps], dict(doc.root.attrib)))
             if reader == "sax":
@@ -550,6 +559,15 @@ class World:
         except Exception as e:
             return ("raised", type(e).__name__)
         raise HarnessError("unknown reader %r" % reader)
+
+    def enc_of(self, name):
+        """utf-8-sig/latin-1 for hand-made files; every writer of the library produces utf-8 (or ASCII)"""
+        p = self.fs.resolve(str(name))
+        e = self.encodings.get(p, "utf-8")
+        data = self.fs.content(p) or b""
+        if data.startswith(b"\xef\xbb\xbf") and e.lower() == "utf-8":
+            return "utf-8-sig"
+        return e
 
     def verify_file(self, idx, name, readers=None, writer="-", fault="-"):
         fm = self.files.get(name)
@@ -633,6 +651,7 @@ class World:
                 if self.files[name].status != "complete":
                     self.probe("torn_or_unacknowledged_file_overwritten")
             self.files[name] = FileModel([tree], "complete")
+            self.encodings.pop(name, None)
             self.verify_file(idx, name, writer=writer, fault=fault)
             return name
         # the operation raised or crashed
@@ -640,6 +659,7 @@ class World:
             self.violate(idx, "op_failed_without_fault", {"status": status, "op": op["op"]},
                          writer, tree.shape(), "-", "-")
         for p in changed:
+            self.encodings.pop(p, None)
             old = self.files.get(p)
             alts = (list(old.alts) if old is not None else []) + [tree]
             self.files[p] = FileModel(alts, "unack")
@@ -713,7 +733,15 @@ class World:
         if op.get("attrs") is not None:
             kw["attributes"] = [dict(a) for a in op["attrs"]]
             if op.get("share_attr_dict") and len(kw["attributes"]) > 1:
-                self.probe("same_attribute_dict_object_passed_for_two_paths")
+                # one dict OBJECT for every path whose attributes are equal (a caller's natural shortcut)
+                first = {}
+                for i, a in enumerate(kw["attributes"]):
+                    key = json.dumps(a, sort_keys=True)
+                    if key in first:
+                        kw["attributes"][i] = first[key]
+                        self.probe("same_attribute_dict_object_passed_for_two_paths")
+                    else:
+                        first[key] = a
         if op.get("svg_attrs") is not None:
             kw["svg_attributes"] = dict(op["svg_attrs"])
         for k in ("colors", "stroke_widths", "dimensions", "viewbox", "mindim", "margin_size", "baseunit"):
@@ -791,7 +819,7 @@ class World:
                 with open(op["file"], "rb") as f:
                     return Document(f)
             data = fs.content(name)
-            return Document.from_svg_string(data.decode("utf-8"))
+            return Document.from_svg_string(data.decode(self.enc_of(name)))
         status, doc, fired = self.run(op, load)
         fault = ",".join(fired) if fired else "-"
         if status != "ok":
@@ -1050,6 +1078,81 @@ class World:
         self.after_write(idx, op, status, fired, pre, tree, dst, "sax")
         return status
 
+    # ---- a file that was NOT written by this library (histories that start with "load") ---------------------------
+    def op_foreign_file(self, idx, op, entry):
+        """The harness itself puts an SVG file on SimFS (no I/O events): default namespace, optional XML
+        declaration with an encoding, BOM, CRLF line ends, comments, a processing instruction, a DOCTYPE,
+        a <desc> with CDATA, one level of groups.  It is then an acknowledged file like any other."""
+        fs = self.fs
+        name = fs.resolve(op["file"])
+        import posixpath
+        from xml.sax.saxutils import quoteattr
+        if posixpath.dirname(name) not in fs.dirs:
+            return "skipped"
+        enc = op.get("encoding", "utf-8")
+        tree = Tree(op.get("svg_attrs") or {}, "foreign")
+        lines = []
+        if op.get("decl", True):
+            lines.append('<?xml version="1.0" encoding="%s"?>' % enc)
+        if op.get("comment"):
+            lines.append("<!-- made by hand: <path d='M0,0'/> is not an element here -->")
+        if op.get("pi"):
+            lines.append('<?xml-stylesheet type="text/css" href="style.css"?>')
+        if op.get("doctype"):
+            lines.append('<!DOCTYPE svg PUBLIC "-//W3C//DTD SVG 1.1//EN" '
+                         '"http://www.w3.org/Graphics/SVG/1.1/DTD/svg11.dtd">')
+        root_attrs = "".join(" %s=%s" % (k, quoteattr(v)) for k, v in tree.svg_attrs.items())
+        lines.append('<svg xmlns="http://www.w3.org/2000/svg" xmlns:xlink="http://www.w3.org/1999/xlink"%s>' % root_attrs)
+        if op.get("cdata"):
+            lines.append("  <desc><![CDATA[ a <path d='M 9,9 L 8,8'/> & more ]]></desc>")
+
+        def emit(spec, indent, parent):
+            try:
+                obj = build_path(spec)
+            except (AssertionError, ValueError, TypeError, IndexError):
+                return
+            a = spec.get("attrs")
+            parent.children.append(PNode(spec["pid"], obj, None if a is None else dict(a)))
+            attrs = "".join(" %s=%s" % (k, quoteattr(v)) for k, v in (a or {}).items())
+            lines.append('%s<path d="%s"%s/>' % (indent, obj.d(), attrs))
+            if op.get("comment"):
+                lines.append("%s<!-- after p%d -->" % (indent, spec["pid"]))
+        for item in op["items"]:
+            if "group" in item:
+                g = GNode(item["group"], {"id": item["group"]})
+                tree.children.append(g)
+                lines.append('  <g id=%s>' % quoteattr(item["group"]))
+                for spec in item["paths"]:
+                    emit(spec, "    ", g)
+                lines.append("  </g>")
+            else:
+                emit(item, "  ", tree)
+        lines.append("</svg>")
+        text = ("\r\n" if op.get("crlf") else "\n").join(lines) + "\n"
+        try:
+            data = text.encode(enc)
+        except UnicodeEncodeError:
+            return "skipped:not-encodable"
+        if op.get("bom") and enc.lower() == "utf-8":
+            data = b"\xef\xbb\xbf" + data
+        from .simfs import Node
+        node = fs.files.get(name)
+        if node is None:
+            node = fs.files[name] = Node()
+        node.data = bytearray(data)
+        node.gen += 1
+        node.mtime = fs.now
+        self.encodings[name] = enc
+        self.files[name] = FileModel([tree], "complete")
+        self.probe("foreign_file")
+        for k in ("bom", "crlf", "comment", "pi", "doctype", "cdata"):
+            if op.get(k):
+                self.probe("foreign_file_with_" + k)
+        if enc.lower() != "utf-8":
+            self.probe("foreign_file_not_utf8")
+        self.verify_file(idx, name, writer="foreign")
+        return "ok"
+
     # ---- explicit reads (may carry faults) ---------------------------------------------------------------------
     def op_read(self, idx, op, entry):
         fs = self.fs
@@ -1165,7 +1268,7 @@ class Gen:
             "doc_get_or_add_group": c.choice([0, 1]), "doc_save": c.choice([1, 2, 3]),
             "doc_display": c.choice([0, 0, 1]), "doc_paths": c.choice([0, 1]),
             "doc_paths_from_group": c.choice([0, 1]), "sax_resave": c.choice([0, 0, 1]),
-            "doc_set_root_attr": c.choice([0, 1]),
+            "doc_set_root_attr": c.choice([0, 1]), "foreign_file": c.choice([0, 0, 1, 2]),
             "read": c.choice([0, 1, 2]), "restart": c.choice([0, 0, 1]),
         }
         if self.w_ops["wsvg"] + self.w_ops["disvg"] + self.w_ops["doc_new"] == 0:
@@ -1382,9 +1485,14 @@ class Gen:
             return op
         if k in ("wsvg", "disvg"):
             n = a.choice([1, 1, 2, 3, 5])
+            if a.random() < 0.02:
+                n = a.randint(40, 120)        # a file of several tens of KiB (crosses every parser's read chunk)
             paths = [self.pathspec(a) for _ in range(n)]
             op = {"op": k, "paths": paths}
             at = [self.attrs(a, p["pid"], prefixed=True) for p in paths]
+            if all(x is not None for x in at) and len(at) > 1 and a.random() < 0.12:
+                at = [dict(at[0]) for _ in at]           # every path gets the same attributes ...
+                op["share_attr_dict"] = True             # ... through one shared dict object
             if all(x is not None for x in at):
                 op["attrs"] = at
             else:
@@ -1421,6 +1529,35 @@ class Gen:
                 op["openinbrowser"] = a.random() < 0.6
                 if op["file"] is not None and a.random() < 0.3:
                     op["timestamp"] = True
+            return op
+        if k == "foreign_file":
+            items = []
+            for _ in range(a.choice([1, 2, 3])):
+                if a.random() < 0.35:
+                    ps = []
+                    for _ in range(a.choice([1, 2])):
+                        sp = self.pathspec(a)
+                        sp["attrs"] = self.attrs(a, sp["pid"])
+                        ps.append(sp)
+                    items.append({"group": a.choice(["g1", "g3", "layer 1"]), "paths": ps})
+                else:
+                    sp = self.pathspec(a)
+                    sp["attrs"] = self.attrs(a, sp["pid"])
+                    items.append(sp)
+            enc = a.choice(["utf-8", "utf-8", "utf-8", "iso-8859-1", "us-ascii"])
+            op = {"op": k, "file": a.choice(self.files), "items": items, "encoding": enc,
+                  "decl": a.random() < 0.8 or enc != "utf-8"}
+            for flag, pr in (("bom", 0.2), ("crlf", 0.3), ("comment", 0.4), ("pi", 0.2), ("doctype", 0.25),
+                             ("cdata", 0.3)):
+                if a.random() < pr:
+                    op[flag] = True
+            sa = self.svg_attrs(a)
+            if sa:
+                sa.pop("xml:space", None)
+                op["svg_attrs"] = sa
+            import posixpath
+            if posixpath.dirname(w.fs.resolve(op["file"])) not in w.fs.dirs:
+                return None
             return op
         if k == "doc_new":
             if len(w.docs) >= 3:
@@ -1649,7 +1786,7 @@ EXPECTED_PROBES = [
     "crash_or_restart_with_dirty_document", "file_left_unacknowledged_by_failed_write",
     "torn_or_unacknowledged_file_overwritten", "same_names_list_object_passed_to_two_calls",
     "add_path_into_element_handle", "browser_opened", "document_loaded_from_wsvg", "document_loaded_from_sax",
-    "pathlib_file_name", "paths_from_group_not_recursive",
+    "pathlib_file_name", "paths_from_group_not_recursive", "document_loaded_from_foreign",
 ]
 
 
